@@ -21,6 +21,11 @@ HERE = os.path.dirname(os.path.abspath(__file__))
 VERIF = os.path.abspath(os.path.join(HERE, ".."))
 sys.path.insert(0, VERIF)
 os.environ.setdefault("MPLBACKEND", "Agg")
+# numpy / scipy / scikit-learn run single-threaded inside a check (unless the caller decides otherwise): the clauses that
+# demand bit-identical results of repeated calls (C14, C17) must not depend on the reduction order of OpenMP threads, and
+# 20 checks running side by side should not oversubscribe the cores
+for _v in ("OMP_NUM_THREADS", "OPENBLAS_NUM_THREADS", "MKL_NUM_THREADS"):
+    os.environ.setdefault(_v, "1")
 os.environ.setdefault("OPTICOMLIB_VERIF", "1")
 # the implementation under test: /repo's working tree (VERIF_REPO may point to a scratch worktree when a
 # seeded change is being tried out without touching /repo); first on sys.path so `import opticomlib` is that tree
